@@ -270,7 +270,7 @@ func main() {
 				os.Exit(2)
 			}
 			for _, fn := range namedLocalFuncs(m) {
-				seen[fn.String()] = true
+				seen[fn.String()+"\t"+sigKey(fn)] = true
 			}
 		}
 		var names []string
